@@ -601,6 +601,28 @@ def g_einsum(b):
     x = pick(b, lambda n: 1 <= np.ndim(b.val(n)) <= 3)
     if x is None:
         return None
+    if rng.random() < 0.2:
+        # ellipsis forms; the second operand's leading (ellipsis) dimensions broadcast against the first one's
+        xs = np.shape(b.val(x))
+        lead, last = tuple(xs[:-1]), xs[-1]
+        ylead = bcast_variants(rng, lead) if (lead and rng.random() < 0.7) else lead
+        if ylead and rng.random() < 0.3:
+            ylead = ylead[1:]
+        forms = ["...i,...i->...", "...i,...i->...i", "...i,i->...", "...,...->..."]
+        if len(xs) >= 2:
+            forms += ["...ij,...j->...i", "...ij,...j->..."]
+        form = rng.choice(forms)
+        if form == "...i,i->...":
+            yshape = (last,)
+        elif form == "...,...->...":
+            yshape = bcast_variants(rng, xs)
+        elif form.startswith("...ij"):
+            yshape = tuple(bcast_variants(rng, xs[:-2]) if xs[:-2] else ()) + (last,)
+        else:
+            yshape = tuple(ylead) + (last,)
+        y = b.leaf(yshape, constant=rng.choice([None, None, True]))
+        args = [form, R(x), R(y)] if rng.random() < 0.5 or form.startswith("...ij") or form == "...i,i->..." else [form, R(y), R(x)]
+        return b.call("einsum", args, sp=rng.choice(["mg", "np"]))
     ops = [x]
     if rng.random() < 0.6:
         if rng.random() < 0.3:
@@ -634,6 +656,14 @@ def g_einsum(b):
     if rng.random() < 0.15 and len(set(subs[0])) == len(subs[0]) and len(ops) == 1:
         expr = subs[0]  # implicit output
     kw = {"optimize": True} if rng.random() < 0.2 else {}
+    if "->" in expr and rng.random() < 0.2:
+        # the sublist form: einsum(op0, [0, 1], op1, [1, 2], [0, 2])
+        num = {c: i for i, c in enumerate(allc)}
+        args = []
+        for o, sub in zip(ops, subs):
+            args += [R(o), ["l", [num[c] for c in sub]]]
+        args.append(["l", [num[c] for c in outc]])
+        return b.call("einsum", args, kw=kw, sp=rng.choice(["mg", "np"]))
     return b.call("einsum", [expr] + [R(o) for o in ops], kw=kw, sp=rng.choice(["mg", "np"]))
 
 
